@@ -1,17 +1,35 @@
 #!/bin/sh
 # Runs inside `unshare -n`: builds the private test network, then execs the worker.
-#   ve0 <-> ve1   and   vf0 <-> vf1 : the server side is ve0/vf0 (addresses
-#   10.77.0.1/24, 10.78.0.1/24), the peer ends carry no address and are only
-#   sniffed. IPv6 is disabled on the veths so that no ND/MLD noise appears.
+#   ve0 <-> ve1   and   vf0 <-> vf1 : the server side is ve0/vf0 (10.77.0.1/24 +
+#   2001:db8:77::1/64, 10.78.0.1/24 + 2001:db8:78::1/64); the peer ends carry no
+#   address and are only used to inject and sniff frames (IPv6 disabled there, so
+#   that they emit nothing themselves). Static neighbour entries stand for the
+#   clients/relays the wire engine impersonates.
 set -e
 ip link set lo up
 ip link add ve0 type veth peer name ve1
 ip link add vf0 type veth peer name vf1
-for i in ve0 ve1 vf0 vf1; do
+for i in ve1 vf1; do
   sysctl -qw net.ipv6.conf.$i.disable_ipv6=1 2>/dev/null || true
-  ip link set $i up
 done
+for i in ve0 vf0; do
+  sysctl -qw net.ipv6.conf.$i.accept_dad=0 2>/dev/null || true
+  sysctl -qw net.ipv6.conf.$i.router_solicitations=0 2>/dev/null || true
+  sysctl -qw net.ipv4.conf.$i.rp_filter=0 2>/dev/null || true
+done
+sysctl -qw net.ipv4.conf.all.rp_filter=0 2>/dev/null || true
+for i in ve0 ve1 vf0 vf1; do ip link set $i up; done
 ip addr add 10.77.0.1/24 dev ve0
 ip addr add 10.78.0.1/24 dev vf0
+ip -6 addr add 2001:db8:77::1/64 dev ve0 nodad 2>/dev/null || true
+ip -6 addr add 2001:db8:78::1/64 dev vf0 nodad 2>/dev/null || true
+# impersonated peers (relay / renewing clients), MAC 02:aa:00:00:00:xx
+for n in 50 51 52 53; do
+  ip neigh replace 10.77.0.$n lladdr 02:aa:00:00:00:$n dev ve0 nud permanent 2>/dev/null || true
+  ip neigh replace 10.78.0.$n lladdr 02:aa:00:00:01:$n dev vf0 nud permanent 2>/dev/null || true
+  ip -6 neigh replace 2001:db8:77::$n lladdr 02:aa:00:00:00:$n dev ve0 nud permanent 2>/dev/null || true
+  ip -6 neigh replace fe80::aa:$n lladdr 02:aa:00:00:00:$n dev ve0 nud permanent 2>/dev/null || true
+  ip -6 neigh replace fe80::aa:$n lladdr 02:aa:00:00:01:$n dev vf0 nud permanent 2>/dev/null || true
+done
 export VERIF_NETNS=1
 exec "$@"
